@@ -3248,4 +3248,359 @@ example : (match parseStatementText "SHOW MEASUREMENTS ON \"\".rp".toList [] [] 
     (Statement.showMeasurements [] "rp".toList false false none none [] 0 0).print = "SHOW MEASUREMENTS".toList := by
   constructor <;> decide +kernel
 
+/-! ### the cardinality statements -/
+
+/-- `[ON db] [FROM names] [WHERE cond] [GROUP BY dims] [LIMIT l] [OFFSET o]`. -/
+def cardText (db : Str) (names : List Str) (c : Option Expr) (ds : List Expr) (l o : Int) : Str :=
+  onDbText db ++ (fromText names ++ (whereText c ++ (groupText ds ++ (posText .LIMIT l ++ posText .OFFSET o))))
+
+/-- The same with the `WITH KEY` clause of SHOW TAG VALUES CARDINALITY. -/
+def cardKeyText (db : Str) (names : List Str) (op : Token) (key : Expr) (c : Option Expr) (ds : List Expr) (l o : Int) : Str :=
+  onDbText db ++ (fromText names ++ (withKeyText op key ++ (whereText c ++ (groupText ds ++
+    (posText .LIMIT l ++ posText .OFFSET o)))))
+
+/-- ` [EXACT] CARDINALITY`. -/
+def exactCardText (ex : Bool) : Str := exactText ex ++ ' ' :: Token.CARDINALITY.str
+
+theorem exactCard_eq (ex : Bool) :
+    (if ex then tx " EXACT" else []) ++ tx " CARDINALITY" = exactCardText ex ∧
+    tx " " ++ exactCardinality ex = exactCardText ex := by
+  cases ex <;> decide +kernel
+
+/-- The text equations (measurement names not empty: finding `empty-identifier-not-printed`). -/
+theorem cardinality_print_partial (db : Str) (ex : Bool) (names : List Str) (op : Token) (key : Expr) (c : Option Expr)
+    (ds : List Expr) (l o : Int) (h : ∀ m ∈ names, m ≠ []) :
+    (Statement.showSeriesCardinality db ex (names.map nameSrc) c ds l o).print =
+      tx "SHOW SERIES" ++ (exactCardText ex ++ cardText db names c ds l o) ∧
+    (Statement.showMeasurementCardinality ex db (names.map nameSrc) c ds l o).print =
+      tx "SHOW MEASUREMENT" ++ (exactCardText ex ++ cardText db names c ds l o) ∧
+    (Statement.showTagKeyCardinality db ex (names.map nameSrc) c ds l o).print =
+      tx "SHOW TAG KEY" ++ (exactCardText ex ++ cardText db names c ds l o) ∧
+    (Statement.showFieldKeyCardinality db ex (names.map nameSrc) c ds l o).print =
+      tx "SHOW FIELD KEY" ++ (exactCardText ex ++ cardText db names c ds l o) ∧
+    (Statement.showTagValuesCardinality db ex (names.map nameSrc) op (some key) c ds l o).print =
+      tx "SHOW TAG VALUES" ++ (exactCardText ex ++ cardKeyText db names op key c ds l o) := by
+  have p1 : (Statement.showSeriesCardinality db ex (names.map nameSrc) c ds l o).print =
+      tx "SHOW SERIES" ++ (if ex then tx " EXACT" else []) ++ tx " CARDINALITY" ++ clauseOn db ++
+        clauseFrom (names.map nameSrc) ++ clauseWhere c ++ clauseGroupBy ds ++ clausePos "LIMIT" l ++ clausePos "OFFSET" o := rfl
+  have p2 : (Statement.showMeasurementCardinality ex db (names.map nameSrc) c ds l o).print =
+      tx "SHOW MEASUREMENT" ++ (if ex then tx " EXACT" else []) ++ tx " CARDINALITY" ++ clauseOn db ++
+        clauseFrom (names.map nameSrc) ++ clauseWhere c ++ clauseGroupBy ds ++ clausePos "LIMIT" l ++ clausePos "OFFSET" o := rfl
+  have p3 : (Statement.showTagKeyCardinality db ex (names.map nameSrc) c ds l o).print =
+      tx "SHOW TAG KEY " ++ exactCardinality ex ++ clauseOn db ++
+        clauseFrom (names.map nameSrc) ++ clauseWhere c ++ clauseGroupBy ds ++ clausePos "LIMIT" l ++ clausePos "OFFSET" o := rfl
+  have p4 : (Statement.showFieldKeyCardinality db ex (names.map nameSrc) c ds l o).print =
+      tx "SHOW FIELD KEY " ++ exactCardinality ex ++ clauseOn db ++
+        clauseFrom (names.map nameSrc) ++ clauseWhere c ++ clauseGroupBy ds ++ clausePos "LIMIT" l ++ clausePos "OFFSET" o := rfl
+  have p5 : (Statement.showTagValuesCardinality db ex (names.map nameSrc) op (some key) c ds l o).print =
+      tx "SHOW TAG VALUES " ++ exactCardinality ex ++ clauseOn db ++
+        clauseFrom (names.map nameSrc) ++ printTagKey op key ++ clauseWhere c ++ clauseGroupBy ds ++ clausePos "LIMIT" l ++
+        clausePos "OFFSET" o := rfl
+  have e3 : tx "SHOW TAG KEY " = tx "SHOW TAG KEY" ++ tx " " := by decide +kernel
+  have e4 : tx "SHOW FIELD KEY " = tx "SHOW FIELD KEY" ++ tx " " := by decide +kernel
+  have e5 : tx "SHOW TAG VALUES " = tx "SHOW TAG VALUES" ++ tx " " := by decide +kernel
+  have a1 : ∀ x y : Str, x ++ (if ex then tx " EXACT" else []) ++ tx " CARDINALITY" ++ y = x ++ (exactCardText ex ++ y) := by
+    intro x y; rw [← (exactCard_eq ex).1]; simp only [List.append_assoc]
+  have a2 : ∀ x y : Str, x ++ tx " " ++ exactCardinality ex ++ y = x ++ (exactCardText ex ++ y) := by
+    intro x y; rw [← (exactCard_eq ex).2]; simp only [List.append_assoc]
+  rw [p1, p2, p3, p4, p5, e3, e4, e5, clauseFrom_names names h, clauseWhere_eq, clauseOn_onDbText, (clausePos_eq l).1,
+    (clausePos_eq o).2.1, clauseGroupBy_eq, printTagKey_eq]
+  simp only [List.append_assoc] at a1 a2 ⊢
+  simp only [a1, a2, cardText, cardKeyText, List.append_assoc, and_self]
+
+section cardinality
+variable (db : Str) (names : List Str) (c : Option Expr) (ds : List Expr) (l o : Int) (k : Str)
+
+theorem card_follow (hk : Follow k cardStop) :
+    Follow (fromText names ++ (whereText c ++ (groupText ds ++ (posText .LIMIT l ++ (posText .OFFSET o ++ k)))))
+      [.EXACT, .CARDINALITY, .ON] ∧
+    Follow (onDbText db ++ (fromText names ++ (whereText c ++ (groupText ds ++ (posText .LIMIT l ++
+      (posText .OFFSET o ++ k)))))) [.EXACT, .CARDINALITY] := by
+  obtain ⟨_, _, _, g2⟩ := cardRest_follow c ds l o k hk
+  have gF : Follow (fromText names ++ (whereText c ++ (groupText ds ++ (posText .LIMIT l ++ (posText .OFFSET o ++ k)))))
+      [.EXACT, .CARDINALITY, .ON] := Follow.opt (kwText_from _) (by decide +kernel) rfl (by decide) (g2.mono (by decide))
+  exact ⟨gF, Follow.opt (kwText_onDb _) (by decide +kernel) rfl (by decide) (gF.mono (by decide))⟩
+
+/-- `[ON db] [FROM names]` and the common tail, from a state standing before them. -/
+theorem cardBody_print (fuel : Nat) (s : PState) (C : Str → List Source → Option Expr → List Expr → Int → Int → Statement)
+    (hexdb : Expressible db) (hex : ∀ m ∈ names, Expressible m) (hc : CondOK c)
+    (hds : ∀ x ∈ ds, RT.rtOK false x = true) (hl : 0 ≤ l ∧ l ≤ maxInt64) (ho : 0 ≤ o ∧ o ≤ maxInt64)
+    (hk : Follow k cardStop)
+    (hs : RT.Stand s (onDbText db ++ (fromText names ++ (whereText c ++ (groupText ds ++ (posText .LIMIT l ++
+      (posText .OFFSET o ++ k))))))) :
+    wp (do
+      let db ← parseOnDb
+      let sources ← parseOptFrom
+      let cond ← parseCondition fuel
+      let dims ← parseDimensions fuel
+      let limit ← parseOptTokInt .LIMIT
+      let offset ← parseOptTokInt .OFFSET
+      pure (C db sources cond dims limit offset)) s
+      (fun st s' => st = C db (names.map nameSrc) c ds l o ∧ RT.Stand s' k) (· = .fuel) := by
+  obtain ⟨_, _, _, g2⟩ := cardRest_follow c ds l o k hk
+  obtain ⟨gF, _⟩ := card_follow db names c ds l o k hk
+  obtain ⟨s3, h3, st3⟩ := parseOnDb_stand s db _ hexdb (gF.mono (by decide)) hs
+  obtain ⟨s4, h4, st4⟩ := parseOptFrom_names s3 names _ hex (g2.mono (by decide)) st3
+  rw [wp_bind, wp_of_run_ok h3, wp_bind, wp_of_run_ok h4]
+  exact cardRest_print fuel s4 (C db (names.map nameSrc)) c ds l o k hc hds hl ho hk st4
+
+variable (ex : Bool)
+
+/-- **Print → parse, SHOW SERIES [EXACT] CARDINALITY** `[ON db] [FROM m1, …] [WHERE cond] [GROUP BY d1, …] [LIMIT l]
+[OFFSET o]`. Partial: plain measurement names; condition and dimensions of C03's class `Printable`
+(tag names, printable expressions; no `time(…)`, `*`, regex dimensions). -/
+theorem showSeriesCardinality_print_parse_partial (fuel : Nat) (s : PState)
+    (hexdb : Expressible db) (hex : ∀ m ∈ names, Expressible m) (hc : CondOK c)
+    (hds : ∀ x ∈ ds, RT.rtOK false x = true) (hl : 0 ≤ l ∧ l ≤ maxInt64) (ho : 0 ≤ o ∧ o ≤ maxInt64)
+    (hk : Follow k cardStop) (hs : s.Before (exactCardText ex ++ cardText db names c ds l o ++ k)) :
+    wp (runHandler fuel .parseShowSeriesStatement) s
+      (fun st s' => st = .showSeriesCardinality db ex (names.map nameSrc) c ds l o ∧ RT.Stand s' k) (· = .fuel) := by
+  obtain ⟨_, g0⟩ := card_follow db names c ds l o k hk
+  have hs0 : s.Before (exactText ex ++ (' ' :: (Token.CARDINALITY.str ++ (onDbText db ++ (fromText names ++ (whereText c ++
+      (groupText ds ++ (posText .LIMIT l ++ (posText .OFFSET o ++ k))))))))) := by
+    simpa only [exactCardText, cardText, List.append_assoc, List.cons_append] using hs
+  obtain ⟨s1, h1, b1⟩ := optExact_print s ex _ g0.tokEnd.1 hs0.around
+  obtain ⟨s2, h2, b2⟩ := optTok_piece s1 [' '] Token.CARDINALITY.str _ .CARDINALITY [] Gap.blank b1
+    (scansAs_kw .CARDINALITY _ (by decide +kernel) g0.tokEnd.1)
+  simp only [runHandler, parseShowSeries]
+  rw [wp_bind, wp_of_run_ok h1, wp_bind, wp_of_run_ok h2]
+  simp only [if_true]
+  exact cardBody_print db names c ds l o k fuel s2 (fun db ss c ds l o => .showSeriesCardinality db ex ss c ds l o)
+    hexdb hex hc hds hl ho hk b2.stand
+
+/-- **Print → parse, SHOW MEASUREMENT [EXACT] CARDINALITY …**: the dispatch reads `SHOW MEASUREMENT EXACT` /
+`SHOW MEASUREMENT CARDINALITY`; the handler for the first expects `CARDINALITY`. Partial as above. -/
+theorem showMeasurementCardinality_print_parse_partial (fuel : Nat) (s : PState)
+    (hexdb : Expressible db) (hex : ∀ m ∈ names, Expressible m) (hc : CondOK c)
+    (hds : ∀ x ∈ ds, RT.rtOK false x = true) (hl : 0 ≤ l ∧ l ≤ maxInt64) (ho : 0 ≤ o ∧ o ≤ maxInt64)
+    (hk : Follow k cardStop)
+    (hs : s.Before ((if ex then ' ' :: Token.CARDINALITY.str else []) ++ cardText db names c ds l o ++ k)) :
+    wp (runHandler fuel (if ex then .parseShowMeasurementCardinalityStatement_true
+        else .parseShowMeasurementCardinalityStatement_false)) s
+      (fun st s' => st = .showMeasurementCardinality ex db (names.map nameSrc) c ds l o ∧ RT.Stand s' k) (· = .fuel) := by
+  obtain ⟨_, g0⟩ := card_follow db names c ds l o k hk
+  cases ex with
+  | true =>
+    have hs0 : s.Before ([' '] ++ (Token.CARDINALITY.str ++ (onDbText db ++ (fromText names ++ (whereText c ++
+        (groupText ds ++ (posText .LIMIT l ++ (posText .OFFSET o ++ k)))))))) := by
+      simpa only [cardText, if_true, List.append_assoc, List.cons_append, List.nil_append] using hs
+    obtain ⟨s2, h2, b2⟩ := expectTok_piece s [' '] Token.CARDINALITY.str _ .CARDINALITY [] ["CARDINALITY"] Gap.blank
+      hs0.around (scansAs_kw .CARDINALITY _ (by decide +kernel) g0.tokEnd.1)
+    simp only [if_true, runHandler, parseShowMeasurementCardinality]
+    rw [wp_bind, wp_of_run_ok h2]
+    exact cardBody_print db names c ds l o k fuel s2 (fun db ss c ds l o => .showMeasurementCardinality true db ss c ds l o)
+      hexdb hex hc hds hl ho hk b2.stand
+  | false =>
+    have hs0 : s.Before (onDbText db ++ (fromText names ++ (whereText c ++
+        (groupText ds ++ (posText .LIMIT l ++ (posText .OFFSET o ++ k)))))) := by
+      simpa only [cardText, Bool.false_eq_true, if_false, List.append_assoc, List.nil_append] using hs
+    simp only [Bool.false_eq_true, if_false, runHandler, parseShowMeasurementCardinality]
+    exact cardBody_print db names c ds l o k fuel s (fun db ss c ds l o => .showMeasurementCardinality false db ss c ds l o)
+      hexdb hex hc hds hl ho hk hs0.stand
+
+/-- `parseExactCardinality` on ` [EXACT] CARDINALITY`. -/
+theorem parseExactCardinality_print (s : PState) (rest : Str) (hw : WordEnd rest)
+    (hs : s.Before (exactText ex ++ (' ' :: (Token.CARDINALITY.str ++ rest)))) :
+    ∃ s', parseExactCardinality.run s = .ok (ex, s') ∧ s'.Before rest := by
+  obtain ⟨s1, h1, b1⟩ := optExact_print s ex rest hw hs.around
+  obtain ⟨lx, s2, h2, t2, _, b2⟩ := scanIW_piece s1 [' '] Token.CARDINALITY.str rest .CARDINALITY [] Gap.blank b1
+    (scansAs_kw .CARDINALITY _ (by decide +kernel) hw)
+  refine ⟨s2, ?_, b2⟩
+  unfold parseExactCardinality
+  rw [P.run_bind _ _ s ex s1 h1, P.run_bind _ _ s1 lx s2 h2]
+  simp only [t2, ne_eq, not_true_eq_false, if_false]
+  rfl
+
+/-- **Print → parse, SHOW TAG KEY [EXACT] CARDINALITY … / SHOW FIELD KEY [EXACT] CARDINALITY …**. Partial as above. -/
+theorem showKeyCardinality_print_parse_partial (fuel : Nat) (s : PState)
+    (hexdb : Expressible db) (hex : ∀ m ∈ names, Expressible m) (hc : CondOK c)
+    (hds : ∀ x ∈ ds, RT.rtOK false x = true) (hl : 0 ≤ l ∧ l ≤ maxInt64) (ho : 0 ≤ o ∧ o ≤ maxInt64)
+    (hk : Follow k cardStop) (hs : s.Before (exactCardText ex ++ cardText db names c ds l o ++ k)) :
+    wp (runHandler fuel .parseShowTagKeyCardinalityStatement) s
+      (fun st s' => st = .showTagKeyCardinality db ex (names.map nameSrc) c ds l o ∧ RT.Stand s' k) (· = .fuel) ∧
+    wp (runHandler fuel .parseShowFieldKeyCardinalityStatement) s
+      (fun st s' => st = .showFieldKeyCardinality db ex (names.map nameSrc) c ds l o ∧ RT.Stand s' k) (· = .fuel) := by
+  obtain ⟨_, g0⟩ := card_follow db names c ds l o k hk
+  have hs0 : s.Before (exactText ex ++ (' ' :: (Token.CARDINALITY.str ++ (onDbText db ++ (fromText names ++ (whereText c ++
+      (groupText ds ++ (posText .LIMIT l ++ (posText .OFFSET o ++ k))))))))) := by
+    simpa only [exactCardText, cardText, List.append_assoc, List.cons_append] using hs
+  obtain ⟨s2, h2, b2⟩ := parseExactCardinality_print ex s _ g0.tokEnd.1 hs0
+  constructor
+  · simp only [runHandler, parseShowTagKeyCardinality]
+    rw [wp_bind, wp_of_run_ok h2]
+    exact cardBody_print db names c ds l o k fuel s2 (fun db ss c ds l o => .showTagKeyCardinality db ex ss c ds l o)
+      hexdb hex hc hds hl ho hk b2.stand
+  · simp only [runHandler, parseShowFieldKeyCardinality]
+    rw [wp_bind, wp_of_run_ok h2]
+    exact cardBody_print db names c ds l o k fuel s2 (fun db ss c ds l o => .showFieldKeyCardinality db ex ss c ds l o)
+      hexdb hex hc hds hl ho hk b2.stand
+
+/-- **Print → parse, SHOW TAG VALUES [EXACT] CARDINALITY** `[ON db] [FROM m1, …] WITH KEY … [WHERE cond] [GROUP BY …]
+[LIMIT l] [OFFSET o]`; the key clause as in `showTagValues_print_parse_partial` (complete). Partial as above. -/
+theorem showTagValuesCardinality_print_parse_partial (fuel : Nat) (s : PState) (op : Token) (key : Expr)
+    (hexdb : Expressible db) (hex : ∀ m ∈ names, Expressible m) (hkey : tagKeyOKB op key = true) (hc : CondOK c)
+    (hds : ∀ x ∈ ds, RT.rtOK false x = true) (hl : 0 ≤ l ∧ l ≤ maxInt64) (ho : 0 ≤ o ∧ o ≤ maxInt64)
+    (hk : Follow k cardStop) (hs : s.Before (exactCardText ex ++ cardKeyText db names op key c ds l o ++ k)) :
+    wp (runHandler fuel .parseShowTagValuesStatement) s
+      (fun st s' => st = .showTagValuesCardinality db ex (names.map nameSrc) op (some key) c ds l o ∧ RT.Stand s' k)
+      (· = .fuel) := by
+  obtain ⟨_, _, _, g2⟩ := cardRest_follow c ds l o k hk
+  have gW : Follow (withKeyText op key ++ (whereText c ++ (groupText ds ++ (posText .LIMIT l ++ (posText .OFFSET o ++ k)))))
+      [.EXACT, .CARDINALITY, .ON, .FROM, .COMMA] :=
+    Follow.opt (kwText_withKey op key) (by decide +kernel) rfl (by decide) (g2.mono (by decide))
+  have gF : Follow (fromText names ++ (withKeyText op key ++ (whereText c ++ (groupText ds ++ (posText .LIMIT l ++
+      (posText .OFFSET o ++ k)))))) [.EXACT, .CARDINALITY, .ON] :=
+    Follow.opt (kwText_from _) (by decide +kernel) rfl (by decide) (gW.mono (by decide))
+  have g0 : Follow (onDbText db ++ (fromText names ++ (withKeyText op key ++ (whereText c ++ (groupText ds ++
+      (posText .LIMIT l ++ (posText .OFFSET o ++ k))))))) [.EXACT, .CARDINALITY] :=
+    Follow.opt (kwText_onDb _) (by decide +kernel) rfl (by decide) (gF.mono (by decide))
+  -- the clauses after `[EXACT] CARDINALITY`, from a state before them
+  have body : ∀ (s2 : PState), s2.Before (onDbText db ++ (fromText names ++ (withKeyText op key ++ (whereText c ++
+      (groupText ds ++ (posText .LIMIT l ++ (posText .OFFSET o ++ k))))))) →
+      wp (do
+        let db ← parseOnDb
+        let sources ← parseOptFrom
+        let (op, key) ← parseTagKeyExpr
+        let cond ← parseCondition fuel
+        let dims ← parseDimensions fuel
+        let limit ← parseOptTokInt .LIMIT
+        let offset ← parseOptTokInt .OFFSET
+        pure (Statement.showTagValuesCardinality db ex sources op (some key) cond dims limit offset)) s2
+        (fun st s' => st = Statement.showTagValuesCardinality db ex (names.map nameSrc) op (some key) c ds l o ∧
+          RT.Stand s' k)
+        (· = .fuel) := by
+    intro s2 b2
+    obtain ⟨s3, h3, st3⟩ := parseOnDb_stand s2 db _ hexdb (gF.mono (by decide)) b2.stand
+    obtain ⟨s4, h4, st4⟩ := parseOptFrom_names s3 names _ hex (gW.mono (by decide)) st3
+    obtain ⟨s5, h5, b5⟩ := parseTagKeyExpr_print s4 op key _ hkey g2.tokEnd.1 st4
+    rw [wp_bind, wp_of_run_ok h3, wp_bind, wp_of_run_ok h4, wp_bind, wp_of_run_ok h5]
+    dsimp only
+    exact cardRest_print fuel s5 (fun c ds l o => .showTagValuesCardinality db ex (names.map nameSrc) op (some key) c ds l o)
+      c ds l o k hc hds hl ho hk b5.stand
+  cases ex with
+  | true =>
+    have hs0 : s.Before ([' '] ++ (Token.EXACT.str ++ (' ' :: (Token.CARDINALITY.str ++ (onDbText db ++ (fromText names ++
+        (withKeyText op key ++ (whereText c ++ (groupText ds ++ (posText .LIMIT l ++ (posText .OFFSET o ++ k)))))))))))
+        := by
+      simpa only [exactCardText, exactText, cardKeyText, if_true, List.append_assoc, List.cons_append, List.nil_append]
+        using hs
+    obtain ⟨lx, s1, h1, t1, _, b1⟩ := scanIW_piece s [' '] Token.EXACT.str _ .EXACT [] Gap.blank hs0.around
+      (scansAs_kw .EXACT _ (by decide +kernel) (WordEnd.blank _))
+    obtain ⟨s2, h2, b2⟩ := expectTok_piece s1 [' '] Token.CARDINALITY.str _ .CARDINALITY [] ["CARDINALITY"] Gap.blank
+      b1.around (scansAs_kw .CARDINALITY _ (by decide +kernel) g0.tokEnd.1)
+    simp only [runHandler, parseShowTagValues]
+    rw [wp_bind, wp_of_run_ok h1]
+    simp only [t1, if_true, parseShowTagValuesCardinality]
+    rw [wp_bind, wp_of_run_ok h2]
+    exact body s2 b2
+  | false =>
+    have hs0 : s.Before ([' '] ++ (Token.CARDINALITY.str ++ (onDbText db ++ (fromText names ++
+        (withKeyText op key ++ (whereText c ++ (groupText ds ++ (posText .LIMIT l ++ (posText .OFFSET o ++ k)))))))))
+        := by
+      simpa only [exactCardText, exactText, cardKeyText, Bool.false_eq_true, if_false, List.append_assoc,
+        List.cons_append, List.nil_append] using hs
+    obtain ⟨lx, s1, h1, t1, _, b1⟩ := scanIW_piece s [' '] Token.CARDINALITY.str _ .CARDINALITY [] Gap.blank hs0.around
+      (scansAs_kw .CARDINALITY _ (by decide +kernel) g0.tokEnd.1)
+    simp only [runHandler, parseShowTagValues]
+    rw [wp_bind, wp_of_run_ok h1]
+    simp only [t1, reduceCtorEq, if_false, if_true, parseShowTagValuesCardinality, Bool.false_eq_true]
+    exact body s1 b1
+
+end cardinality
+
+/-- Non-vacuity of the cardinality theorems. -/
+def exCardText : Str := exactCardText true ++ cardText "my db".toList exNames exCond exDims 10 3
+def exCardText2 : Str := exactCardText false ++ cardText [] [] none exDims 0 0
+def exCardKeyText : Str := exactCardText true ++ cardKeyText [] ["cpu".toList] .IN exKeyIn none exDims 5 0
+
+example : exCardText = (" EXACT CARDINALITY ON \"my db\" FROM cpu, \"my m\" WHERE host = 'a' AND (x > -1 OR y =~ /^b/) " ++
+      "GROUP BY host, \"my tag\" LIMIT 10 OFFSET 3").toList ∧
+    exCardText2 = " CARDINALITY GROUP BY host, \"my tag\"".toList ∧
+    exCardKeyText = (" EXACT CARDINALITY FROM cpu WITH KEY IN (host, \"my tag\", \"select\") " ++
+      "GROUP BY host, \"my tag\" LIMIT 5").toList := by decide +kernel
+
+section
+attribute [local irreducible] wp
+example : wp (runHandler 200 .parseShowSeriesStatement) (PState.init exCardText [] [])
+    (fun st s' => st = .showSeriesCardinality "my db".toList true (exNames.map nameSrc) exCond exDims 10 3 ∧
+      RT.Stand s' [eofRune]) (· = .fuel) :=
+  showSeriesCardinality_print_parse_partial "my db".toList exNames exCond exDims 10 3 [eofRune] true 200
+    (PState.init exCardText [] []) (by decide +kernel) (by decide +kernel) (by decide +kernel) (by decide +kernel)
+    (by decide) (by decide) (Follow.eof _ (by decide)) (init_before exCardText (by decide +kernel))
+
+example : wp (runHandler 200 .parseShowMeasurementCardinalityStatement_false) (PState.init (cardText [] [] none exDims 0 0) [] [])
+    (fun st s' => st = .showMeasurementCardinality false [] [] none exDims 0 0 ∧ RT.Stand s' [eofRune]) (· = .fuel) :=
+  showMeasurementCardinality_print_parse_partial [] [] none exDims 0 0 [eofRune] false 200
+    (PState.init (cardText [] [] none exDims 0 0) [] []) (by decide +kernel) (by decide +kernel) (by decide +kernel)
+    (by decide +kernel) (by decide) (by decide) (Follow.eof _ (by decide))
+    (init_before (cardText [] [] none exDims 0 0) (by decide +kernel))
+
+example : wp (runHandler 200 .parseShowTagKeyCardinalityStatement) (PState.init exCardText2 [] [])
+    (fun st s' => st = .showTagKeyCardinality [] false [] none exDims 0 0 ∧ RT.Stand s' [eofRune]) (· = .fuel) :=
+  (showKeyCardinality_print_parse_partial [] [] none exDims 0 0 [eofRune] false 200
+    (PState.init exCardText2 [] []) (by decide +kernel) (by decide +kernel) (by decide +kernel) (by decide +kernel)
+    (by decide) (by decide) (Follow.eof _ (by decide)) (init_before exCardText2 (by decide +kernel))).1
+
+example : wp (runHandler 200 .parseShowFieldKeyCardinalityStatement) (PState.init exCardText [] [])
+    (fun st s' => st = .showFieldKeyCardinality "my db".toList true (exNames.map nameSrc) exCond exDims 10 3 ∧
+      RT.Stand s' [eofRune]) (· = .fuel) :=
+  (showKeyCardinality_print_parse_partial "my db".toList exNames exCond exDims 10 3 [eofRune] true 200
+    (PState.init exCardText [] []) (by decide +kernel) (by decide +kernel) (by decide +kernel) (by decide +kernel)
+    (by decide) (by decide) (Follow.eof _ (by decide)) (init_before exCardText (by decide +kernel))).2
+
+example : wp (runHandler 200 .parseShowTagValuesStatement) (PState.init exCardKeyText [] [])
+    (fun st s' => st = .showTagValuesCardinality [] true (["cpu".toList].map nameSrc) .IN (some exKeyIn) none exDims 5 0 ∧
+      RT.Stand s' [eofRune]) (· = .fuel) :=
+  showTagValuesCardinality_print_parse_partial [] ["cpu".toList] none exDims 5 0 [eofRune] true 200
+    (PState.init exCardKeyText [] []) .IN exKeyIn (by decide +kernel) (by decide +kernel) (by decide +kernel)
+    (by decide +kernel) (by decide +kernel) (by decide) (by decide) (Follow.eof _ (by decide))
+    (init_before exCardKeyText (by decide +kernel))
+end
+
+/-- … and the fuel suffices. -/
+example : (match (runHandler 200 .parseShowSeriesStatement).run (PState.init exCardText [] []) with
+    | .ok _ => true
+    | .error _ => false) = true ∧
+    (match (runHandler 200 .parseShowTagValuesStatement).run (PState.init exCardKeyText [] []) with
+    | .ok _ => true
+    | .error _ => false) = true := by decide +kernel
+
+/-! ### the dispatch keywords of the families of this round -/
+
+/-- The keyword paths of the families above (see `familyPaths`): what is printed before the handler's part,
+the keywords, the handler they select. `SHOW MEASUREMENT` splits on the next keyword. -/
+def adminShowPaths : List (Str × List Token × Handler) :=
+  [(tx "CREATE DATABASE", [.CREATE, .DATABASE], .parseCreateDatabaseStatement),
+   (tx "CREATE SUBSCRIPTION", [.CREATE, .SUBSCRIPTION], .parseCreateSubscriptionStatement),
+   (tx "SHOW TAG VALUES", [.SHOW, .TAG, .VALUES], .parseShowTagValuesStatement),
+   (tx "SHOW MEASUREMENTS", [.SHOW, .MEASUREMENTS], .parseShowMeasurementsStatement),
+   (tx "SHOW SERIES", [.SHOW, .SERIES], .parseShowSeriesStatement),
+   (tx "SHOW MEASUREMENT EXACT", [.SHOW, .MEASUREMENT, .EXACT], .parseShowMeasurementCardinalityStatement_true),
+   (tx "SHOW MEASUREMENT CARDINALITY", [.SHOW, .MEASUREMENT, .CARDINALITY], .parseShowMeasurementCardinalityStatement_false),
+   (tx "SHOW TAG KEY", [.SHOW, .TAG, .KEY], .parseShowTagKeyCardinalityStatement),
+   (tx "SHOW FIELD KEY", [.SHOW, .FIELD, .KEY], .parseShowFieldKeyCardinalityStatement)]
+
+/-- Obligation on the regenerated tables: every path above is printed as its keywords, consists of
+keywords of the scanner's table, and selects its handler from the root of the dispatch tree. -/
+theorem gen_adminShowPaths : ∀ p ∈ adminShowPaths,
+    p.1 = kwText p.2.1 ∧ (∀ t ∈ p.2.1, t.isKw = true) ∧ dispatchPath 0 p.2.1 = some p.2.2 ∧
+      p.2.1.length ≤ dispatch.length + 1 := by decide +kernel
+
+/-- **End to end, an instance:** `ParseStatement` on the whole printed text of a CREATE SUBSCRIPTION
+statement, followed by `k`, returns that statement and stays around `k`. -/
+theorem createSubscription_statement_print_parse (fuel : Nat) (s : PState) (name db rp : Str) (mode : Token) (v : Str)
+    (vs : List Str) (k : Str) (hex1 : Expressible name) (hex2 : Expressible db) (hex3 : Expressible rp)
+    (hmode : mode = .ALL ∨ mode = .ANY) (hexv : ∀ x ∈ v :: vs, Expressible x) (hk : NextNot k .COMMA)
+    (hs : s.Before ((Statement.createSubscription name db rp (v :: vs) mode.str).print ++ k)) :
+    ∃ s', (parseStatement fuel).run s = .ok (.createSubscription name db rp (v :: vs) mode.str, s') ∧ s'.Around k := by
+  rw [createSubscription_print] at hs
+  obtain ⟨hpr, hkw, hpath, hlen⟩ := gen_adminShowPaths (tx "CREATE SUBSCRIPTION", [.CREATE, .SUBSCRIPTION],
+    .parseCreateSubscriptionStatement) (by simp [adminShowPaths])
+  simp only at hpr hkw hpath hlen
+  rw [hpr, List.append_assoc] at hs
+  obtain ⟨s1, h1, b1⟩ := parseStatement_print fuel _ _ s [] (createSubscriptionText name db rp mode v vs ++ k) hpath hkw
+    hlen Gap.none (WordEnd.blank _) hs
+  obtain ⟨s', h2, b2⟩ := createSubscription_print_parse fuel s1 name db rp mode v vs k hex1 hex2 hex3 hmode hexv hk b1
+  exact ⟨s', by rw [h1]; exact h2, b2⟩
+
 end InfluxQL.C02
